@@ -37,7 +37,7 @@ from ..evidence import Run, canon_hash
 PID = "C10"
 SHARDS = {"quick": 6, "thorough": 16}
 SHARD_TIMEOUT = {"quick": 400, "thorough": 1700}
-N_PER_TYPE = {"quick": 90, "thorough": 900}
+N_PER_TYPE = {"quick": 60, "thorough": 900}
 
 
 def new_run():
@@ -111,6 +111,10 @@ def mech(kind, w):
     if kind in S2_KINDS + ("not-idempotent",) and cls == "numpy_engine.Bool" and \
             in_dtype == "category" and "<null>" in cont.get("values", []):
         return "numpy-bool-coerce-of-categorical-with-null-yields-object"
+    if short == "Category" and cls.startswith("pandas_engine.") and "has no len()" in (
+            exc + str(w.get("detail"))) and any(
+            v.startswith("tuple:") for v in cont.get("values", []) + cont.get("values2", [])):
+        return "pandas-category-with-tuple-categories-cannot-be-resolved"
     if cls.startswith("pandas_engine.Python"):
         allnull = all(v == "<null>" for v in cont.get("values", []) + cont.get("values2", []))
         if kind in S2_KINDS + ("not-idempotent",) and (empty or allnull):
@@ -376,7 +380,10 @@ def pandas_success(run, eng, t, kind, extra, c, out, base):
     elif not r:
         viol(run, "coerced-result-fails-own-check", dict(base, output=K._brief(out)))
     # S3
-    for (col, cin), (_, cout) in zip(columns_of(c), columns_of(out)):
+    if isinstance(c, np.ndarray):
+        run.count("undecided:ndarray-cells(numpy-astype-of-pandas-scalars)")
+    for (col, cin), (_, cout) in ([] if isinstance(c, np.ndarray) else
+                                  zip(columns_of(c), columns_of(out))):
         vin, _ = elements(cin)
         vout, _ = elements(cout)
         all_exact = kind is not None and all(
@@ -890,7 +897,7 @@ def _floors(run, ctx):
     if len(not_built) > 3:
         run.note_inconclusive(f"{len(not_built)} registered classes could not be built: "
                               f"{sorted(not_built)}")
-    q = 1 if ctx.tier == "quick" else 8
+    q = 1 if ctx.tier == "quick" else 12
     for name, m in FLOORS.items():
         run.floors[name] = m * q
     if run.counters.get("harness_error_total", 0):
@@ -899,23 +906,23 @@ def _floors(run, ctx):
 
 # quick-tier minimums, about 1/4 of what the unchanged tree gives (seed 0)
 FLOORS = {
-    "contract_evals_total:result_passes_own_check": 5000,
-    "contract_evals_total:same_length_and_labels": 5000,
-    "pandas:success": 1000, "pandas:parser_error": 1500,
-    "pandas:S2_own_check": 1000, "pandas:S3_exact_elements": 500,
-    "pandas:S3_null_elements": 60, "pandas:S5_idempotent": 1000,
-    "pandas:F2_failure_cases": 1500, "pandas:S3_vs_coerce_value": 400,
-    "numpy:success": 200, "numpy:F2_failure_cases": 150,
-    "polars:success": 500, "polars:parser_error": 300,
-    "polars:S2_own_check": 500, "polars:S3_exact_elements": 150,
-    "polars:S3_null_elements": 50, "polars:S5_idempotent": 500,
-    "polars:F2_failure_cases": 300,
-    "schema_level:pandas:expect_coercion_error": 2500,
-    "schema_level:pandas:reason_DATATYPE_COERCION": 2500,
-    "schema_level:pandas:expect_no_coercion_error": 1500,
-    "schema_level:polars:expect_coercion_error": 300,
-    "schema_level:polars:reason_DATATYPE_COERCION": 300,
-    "schema_level:polars:expect_no_coercion_error": 500,
+    "contract_evals_total:result_passes_own_check": 3300,
+    "contract_evals_total:same_length_and_labels": 3300,
+    "pandas:success": 660, "pandas:parser_error": 990,
+    "pandas:S2_own_check": 660, "pandas:S3_exact_elements": 330,
+    "pandas:S3_null_elements": 39, "pandas:S5_idempotent": 660,
+    "pandas:F2_failure_cases": 990, "pandas:S3_vs_coerce_value": 264,
+    "numpy:success": 132, "numpy:F2_failure_cases": 99,
+    "polars:success": 330, "polars:parser_error": 198,
+    "polars:S2_own_check": 330, "polars:S3_exact_elements": 99,
+    "polars:S3_null_elements": 33, "polars:S5_idempotent": 330,
+    "polars:F2_failure_cases": 198,
+    "schema_level:pandas:expect_coercion_error": 1650,
+    "schema_level:pandas:reason_DATATYPE_COERCION": 1650,
+    "schema_level:pandas:expect_no_coercion_error": 990,
+    "schema_level:polars:expect_coercion_error": 198,
+    "schema_level:polars:reason_DATATYPE_COERCION": 198,
+    "schema_level:polars:expect_no_coercion_error": 330,
 }
 
 
